@@ -131,6 +131,8 @@ impl ChooserState {
 #[derive(Clone, Debug, serde::Serialize, serde::Deserialize, PartialEq, Eq, Hash)]
 pub enum FileSpec {
     Regular { content: String, mode: u32, exec: bool },
+    /// regular file with arbitrary bytes
+    Bytes { content: Vec<u8>, mode: u32 },
     Dir { mode: u32 },
     Symlink { target: String },
 }
@@ -154,6 +156,8 @@ pub struct Setup {
     pub remove_files: Vec<String>,
     /// stdin is a pipe fed by a helper task writing these chunks (scheduler-interleaved)
     pub stdin_pipe: Option<Vec<Vec<u8>>>,
+    /// with `stdin_pipe`: the read end is handed to the shell with O_NONBLOCK set
+    pub stdin_nonblock: bool,
     /// raise SIGUSR1 on the shell process right before this scheduler step (only if the process
     /// currently catches it, so that the default action cannot kill the shell)
     pub raise_usr1_at_step: Option<u32>,
@@ -175,6 +179,7 @@ impl Setup {
             preempt: false,
             remove_files: vec![],
             stdin_pipe: None,
+            stdin_nonblock: false,
             raise_usr1_at_step: None,
         }
     }
@@ -297,6 +302,10 @@ fn save_file(state: &mut SystemState, path: &str, spec: &FileSpec) {
             body: FileBody::Regular { content: content.clone().into_bytes(), is_native_executable: *exec },
             permissions: Mode::from_bits_truncate(*mode as _),
         },
+        FileSpec::Bytes { content, mode } => Inode {
+            body: FileBody::Regular { content: content.clone(), is_native_executable: false },
+            permissions: Mode::from_bits_truncate(*mode as _),
+        },
         FileSpec::Dir { mode } => Inode {
             body: FileBody::Directory { files: Default::default() },
             permissions: Mode::from_bits_truncate(*mode as _),
@@ -370,6 +379,10 @@ pub fn run(setup: &Setup) -> RunResult {
         let (r, w) = system.pipe().expect("pipe");
         system.dup2(r, Fd(0)).expect("dup2");
         system.close(r).expect("close");
+        if setup.stdin_nonblock {
+            use yash_env::system::Fcntl as _;
+            system.get_and_set_nonblocking(Fd(0), true).expect("fcntl");
+        }
         {
             let mut st = state.borrow_mut();
             let helper = yash_env::system::r#virtual::Process::fork_from(yash_env::job::Pid(1), &st.processes[&system.process_id]);
